@@ -43,7 +43,31 @@ func edgeFE(r *mon.Rand, wide bool) (*big.Int, string) {
 		}
 		return new(big.Int).Mod(v, pow256), cls
 	}
-	switch r.Intn(14) {
+	switch r.Intn(17) {
+	case 7, 8, 9:
+		// limb-boundary values: the number is assembled from limbs of one of the usual widths (10x26, 8x32, 5x52,
+		// 4x64 bit representations), each limb all-ones, nearly all-ones, zero, small or random: carries and
+		// magnitude bounds of limb arithmetic are exercised whatever the representation
+		w := []uint{26, 32, 52, 64}[r.Intn(4)]
+		v := new(big.Int)
+		for sh := uint(0); sh < 256; sh += w {
+			ones := new(big.Int).Sub(new(big.Int).Lsh(bigOne, w), bigOne)
+			var limb *big.Int
+			switch r.Intn(6) {
+			case 0, 1:
+				limb = ones
+			case 2:
+				limb = new(big.Int).Sub(ones, big.NewInt(int64(r.Intn(0x7a2))))
+			case 3:
+				limb = new(big.Int)
+			case 4:
+				limb = big.NewInt(int64(r.Intn(0x7a2)))
+			default:
+				limb = new(big.Int).And(new(big.Int).SetBytes(r.Bytes(8)), ones)
+			}
+			v.Or(v, new(big.Int).Lsh(limb, sh))
+		}
+		return pick(v, "limbs")
 	case 0:
 		return pick(big.NewInt(int64(r.Intn(4))), "small")
 	case 1:
@@ -83,8 +107,13 @@ func edgeFE(r *mon.Rand, wide bool) (*big.Int, string) {
 // onCurveX returns an x with x^3+7 square, searched upward from a boundary-biased start.
 func onCurveX(r *mon.Rand) (*big.Int, string) {
 	x, cls := edgeFE(r, false)
+	// (limb-boundary starts are searched in steps of 2^104 so that the low limbs keep their pattern)
+	step := bigOne
+	if cls == "limbs" {
+		step = new(big.Int).Lsh(bigOne, 104)
+	}
 	for !ref.IsSquare(new(big.Int).Mod(new(big.Int).Add(new(big.Int).Exp(x, big.NewInt(3), ref.P), big.NewInt(7)), ref.P)) {
-		x = new(big.Int).Mod(new(big.Int).Add(x, bigOne), ref.P)
+		x = new(big.Int).Mod(new(big.Int).Add(x, step), ref.P)
 	}
 	return x, cls
 }
